@@ -1236,8 +1236,9 @@ class UTPM(Ring, RawAlgorithmsMixIn):
         return xbar
 
     def prod(self):
-        x = self
-        D,P = x.data.shape[:2]
+        D,P = self.data.shape[:2]
+        # product over all elements, as numpy.prod: iterate over the flattened array
+        x = UTPM(self.data.reshape((D,P,-1)))
         y = UTPM(numpy.zeros((D,P), dtype=x.data.dtype))
         y.data[0,:] = 1.
         for i in range(0, x.size):
@@ -1253,6 +1254,11 @@ class UTPM(Ring, RawAlgorithmsMixIn):
         else:
             xbar, = out
 
+        # product over all elements, as numpy.prod: work on the flattened array
+        shp = x.data.shape
+        x = cls(x.data.reshape((D,P,-1)))
+        xbar_flat = x.zeros_like()
+
         # forward and store intermediates
         z = x.zeros_like()
         zbar = x.zeros_like()
@@ -1265,8 +1271,9 @@ class UTPM(Ring, RawAlgorithmsMixIn):
         zbar[x.size-1] = ybar
         for i in range(x.size-1, 0, -1):
             zbar[i-1] += zbar[i]*x[i]
-            xbar[i]   += zbar[i]*z[i-1]
-        xbar[0] = zbar[0]
+            xbar_flat[i] += zbar[i]*z[i-1]
+        xbar_flat[0] = zbar[0]
+        xbar.data[...] += xbar_flat.data.reshape(shp)
         return xbar
 
         # z = y.copy()
